@@ -224,6 +224,28 @@ def check(schema, dropped):
                     problems.append(('dangling-reference', cls.__name__,
                                      str(name), f.name))
                 recomputed[rid][(cls, f.name)].add(oid)
+            # (ii') collections of owned children that are looked up by a
+            # key derived from the child's name: the stored key must be the
+            # one the child's current name gives
+            if isinstance(v, so.ObjectIndexBase):
+                try:
+                    keys = list(v.keys(schema))
+                    objs = list(v.objects(schema))
+                    for k, child in zip(keys, objs):
+                        want = type(v).get_key_for(schema, child)
+                        if want != k:
+                            problems.append((
+                                'owned-child-key-stale', cls.__name__,
+                                f.name, str(k).replace(str(name), '<owner>')
+                                [:60]))
+                        got = v.get(schema, want, None)
+                        if got is None or got.id != child.id:
+                            problems.append((
+                                'owned-child-lookup-disagrees',
+                                cls.__name__, f.name))
+                except Exception as e:
+                    problems.append(('owned-children-unreadable',
+                                     cls.__name__, f.name, repr(e)[:80]))
     # (iii) lookups by referrer agree with the objects' own data
     for rid, byfield in recomputed.items():
         tgt = schema.get_by_id(rid, None)
